@@ -174,6 +174,13 @@ def run(args):
     if args.limit:
         todo = todo[:args.limit]
     print("%d mutants to run (%d done before)" % (len(todo), len(done)))
+    # the checks run from a snapshot of /verif taken now, so that rules can be edited while the sweep is running
+    global VERIF
+    snap = os.path.join(scratch, "verif-snapshot")
+    rc, o = sh("rsync -a --delete --exclude work --exclude .git --exclude evidence --exclude reports --exclude seeded --exclude 'factgen/target/release/build' "
+               "--exclude 'factgen/target/release/deps' --exclude 'factgen/target/release/incremental' --exclude 'factgen/target/release/.fingerprint' --exclude witness %s/ %s/" % (VERIF, snap), "/")
+    assert rc == 0, o
+    VERIF = snap
     workers = [Worker(k, scratch) for k in range(args.workers)]
     free = list(workers)
     lock = threading.Lock()
@@ -200,6 +207,55 @@ def run(args):
         list(ex.map(job, todo))
 
 
+def triage(args):
+    """runs the dynamic triage oracle (selftest/triage/oracle.rs; brute-force references on random small inputs) on every SILENT lib survivor:
+    oracle fails -> behaviour changed -> a GAP of the static rules; oracle passes -> probably equivalent (or needs inputs the oracle does not generate)"""
+    scratch = args.scratch
+    res = [json.loads(l) for l in open(os.path.join(scratch, "results.jsonl"))]
+    out_path = os.path.join(scratch, "triage.jsonl")
+    done = set()
+    if os.path.exists(out_path):
+        done = set(json.loads(l)["id"] for l in open(out_path))
+    todo = [r for r in res if r["outcome"] == "SILENT" and r["file"].startswith("lib/") and r["id"] not in done and (not args.match or any(s in r["id"] for s in args.match))]
+    print("%d silent lib survivors to triage" % len(todo))
+    workers = [Worker(100 + k, scratch) for k in range(args.workers)]
+    free = list(workers)
+    lock = threading.Lock()
+    out = open(out_path, "a")
+    oracle = os.path.join(os.path.dirname(os.path.abspath(__file__)), "triage", "oracle.rs")
+
+    def job(m):
+        with lock:
+            w = free.pop()
+        try:
+            sh("git checkout -- . && git clean -fdq -e target", w.wt)
+            path = os.path.join(w.wt, m["file"])
+            src = open(path).read().split("\n")
+            assert src[m["line"] - 1] == m["old"]
+            src[m["line"] - 1] = m["new"]
+            open(path, "w").write("\n".join(src))
+            import shutil
+            shutil.copy(oracle, os.path.join(w.wt, "lib", "tests", "triage_oracle.rs"))
+            rc, o = sh("cargo test -p adf_bdd --offline --test triage_oracle -- --test-threads 2 2>&1", w.wt, w.env, timeout=900)
+            mism = sorted(set(l.split(":")[0].replace("MISMATCH ", "") for l in o.splitlines() if l.startswith("MISMATCH")))
+            panics = [l.strip()[:160] for l in o.splitlines() if "panicked at" in l and "triage_oracle.rs" not in l][:3]
+            verdict = "oracle-pass" if rc == 0 else ("oracle-timeout" if rc == 124 else "oracle-FAIL")
+            r = {"id": m["id"], "verdict": verdict, "mismatch": mism[:12], "panics": panics, "old": m["old"].strip(), "new": m["new"].strip()}
+        except Exception as e:  # noqa
+            r = {"id": m["id"], "verdict": "error", "error": str(e)}
+        finally:
+            sh("git checkout -- . && git clean -fdq -e target", w.wt)
+            with lock:
+                free.append(w)
+        with lock:
+            out.write(json.dumps(r) + "\n")
+            out.flush()
+            print("%-60s %-14s %s %s" % (r["id"], r["verdict"], " | ".join(r.get("mismatch", []))[:120], r.get("panics", [])[:1]), flush=True)
+
+    with concurrent.futures.ThreadPoolExecutor(max_workers=args.workers) as ex:
+        list(ex.map(job, todo))
+
+
 def report(args):
     res = [json.loads(l) for l in open(os.path.join(args.scratch, "results.jsonl"))]
     tri = {}
@@ -219,7 +275,7 @@ def report(args):
 
 def main():
     ap = argparse.ArgumentParser()
-    ap.add_argument("cmd", choices=["gen", "run", "report"])
+    ap.add_argument("cmd", choices=["gen", "run", "report", "triage"])
     ap.add_argument("--scratch", default="/tmp/sweep")
     ap.add_argument("--files", nargs="*", default=DEFAULT_FILES)
     ap.add_argument("--workers", type=int, default=4)
@@ -231,6 +287,8 @@ def main():
         gen(a.files, os.path.join(a.scratch, "mutants.jsonl"))
     elif a.cmd == "run":
         run(a)
+    elif a.cmd == "triage":
+        triage(a)
     else:
         report(a)
 
